@@ -566,6 +566,11 @@ MALFORMED = [
     'a {}', 'a { }', 'a {\t}', 'é {ü:ö}', 'a {k: v w ;}', 'a {k:v}\nb {k:w}', 'a {k:v} {k:w}', 'ab {k:v}b {k:w}',
     'mystructure {type:p;}', 'xreadingOrder {index:1;}', 'atextStyle {a:b}', 'a {type:structure {}', 'a {x:\u00a0y\u00a0}',
     'a {\x1cx\x1c:\x1fy\x1f}', 'a\u00a0{x:1}', 'a {x:1}\r\nb {y:2}', 'a {x\r:1}',
+    # (wave 5) other things than one space between a name and its brace: outside the statement ("one space between
+    # name and brace"); what the patterns of the source make of them is regenerated (…AnySpace) and mirrored
+    'a\t{x:1}', 'a \n {x:1}', 'ab{x:1} cd  {y:2}', 'structure{type:p;}', 'structure  {type:p;}', 'mystructure{type:p;}',
+    'readingOrder\t{index:1;}', 'readingOrder{index:1;} structure {type:p;}', 'textStyle{a:b;}', 'textStyle  {a:b;} textStyle {c:d}',
+    'atextStyle{a:b}', 'a\x1f{x:1}', 'a {x:1} {y:2}', 'a { {x:1}',
 ]
 
 
@@ -703,7 +708,11 @@ class C11(Check):
         'pinned tree the excluded class (a tag name ending with structure / readingOrder) is the known finding '
         'C11:document-rejected:name-ends-with-dedicated, proved to fail in C11_dedicated_fields_counterexample; '
         'C11_dedicated_fields_of_boundary_guards is the full-strength statement for a source whose guards are '
-        'word-boundary searches (the guard style is regenerated from the source on every run). Not proved, only sampled: that CPython re implements '
+        'word-boundary searches (the guard style is regenerated from the source on every run). Wave 5: what each '
+        'of the six patterns writes between the tag name and the opening brace — one space, or \\s* — is regenerated '
+        'too (…AnySpace in Generated/C11.lean, gapBrace in the model); all theorems are proved for either value of '
+        'each of the six (a string of the statement writes exactly one space and no other brace; both forms accept '
+        'it); any other text in that place is an unknown shape (broken translator). Not proved, only sampled: that CPython re implements '
         'the pattern as the hand-compiled scanner; the document-level walk of get_custom_tags (its per-tag row is '
         'proved); XML attribute-value normalisation; int() on non-ASCII digits is outside the model. '
         'Correspondence level: inputs outside the quantifier (decided per case from its input: text that is not a '
@@ -718,8 +727,9 @@ class C11(Check):
         'repeat the first; the parsed entries are re-read after make_custom_string / re-parsing and serialised a second '
         'time, the scan\'s elements are re-read after get_custom_tags and get_custom_tags is asked twice')
     assumptions = [
-        'CPython re implements \\b(\\w+) {(.*?)} as the hand-compiled scanner (finditer: leftmost match, continue '
-        'after it); sampled by the correspondence on adversarial strings',
+        'CPython re implements \\b(\\w+) {(.*?)} / \\b(\\w+)\\s*{(.*?)} as the hand-compiled scanner (finditer: leftmost '
+        'match, continue after it; \\s = str.isspace per character); sampled by the correspondence on adversarial '
+        'strings, among them names followed by no, two, a tab, a newline, a no-break space before the brace',
         'the character-class laws used by the theorems (space, braces, colon, semicolon, minus are not word '
         'characters; colon, semicolon, braces, minus, digits are not whitespace; space is whitespace) are checked '
         'against the running CPython on every run',
@@ -763,9 +773,71 @@ class C11(Check):
             if k not in tags or tags[k][0] != f:
                 raise ValueError(f'dedicated field {k} of parse_custom_metadata not recognised')
 
-        # the style of the guard in front of each dedicated field: "'<tag> {' in custom" (substring) or
-        # "re.search(r'\\b<tag> {.*?}', custom)" (the same pattern the element parsers use)
+        # GAP: what a pattern writes between the tag name and the opening brace.  Two forms are known to the model
+        # (`gapBrace` in Model/C11.lean): one literal space, and `\s*` (any number of white-space characters, none
+        # included).  Every pattern carries its own (`…AnySpace` in Generated/C11.lean: False = one space, True = \s*);
+        # the theorems are proved for either value of each (a string of the statement writes exactly one space, which
+        # both forms accept, and no brace elsewhere).  Any other text in that place is a shape the translator does
+        # not know.
+        GAPS = {' ': False, '\\s*': True}
+
+        def gap_of(text: str, before: str, after: str, what: str) -> bool:
+            """`text` == before + GAP + after"""
+            if text.startswith(before) and text.endswith(after) and len(text) >= len(before) + len(after):
+                g = text[len(before):len(text) - len(after)]
+                if g in GAPS:
+                    return GAPS[g]
+            raise ValueError(f'pattern of {what} not recognised: {text!r}')
+
+        def flat(node) -> List[Any]:
+            """the operands of a string concatenation a + b + c: str for a literal, the ast node otherwise"""
+            if isinstance(node, ast.BinOp) and isinstance(node.op, ast.Add):
+                return flat(node.left) + flat(node.right)
+            if isinstance(node, ast.Constant) and isinstance(node.value, str):
+                return [node.value]
+            return [node]
+
+        def re_calls(fn, attr: str) -> List[ast.Call]:
+            return [n for n in ast.walk(fn) if isinstance(n, ast.Call) and isinstance(n.func, ast.Attribute) and
+                    n.func.attr == attr and isinstance(n.func.value, ast.Name) and n.func.value.id == 're']
+
+        def only_pattern(fname: str, attr: str) -> List[Any]:
+            calls = re_calls(funcs[fname], attr)
+            others = [n for a in ('search', 'finditer', 'findall', 'match', 'fullmatch', 'sub', 'split')
+                      for n in re_calls(funcs[fname], a) if a != attr]
+            if len(calls) != 1 or others or len(calls[0].args) != 2 or not isinstance(calls[0].args[1], ast.Name):
+                raise ValueError(f'the one re.{attr}(pattern, <string>) of {fname} not recognised')
+            return flat(calls[0].args[0])
+
+        def is_name(x, name: str) -> bool:
+            return isinstance(x, ast.Name) and x.id == name
+
+        gaps = {}
+        # parse_custom_attributes: re.finditer(r'\b(\w+)GAP{(.*?)}', custom_string)
+        parts_ = only_pattern('parse_custom_attributes', 'finditer')
+        if len(parts_) != 1 or not isinstance(parts_[0], str):
+            raise ValueError('pattern of parse_custom_attributes not recognised')
+        gaps['attributes'] = gap_of(parts_[0], '\\b(\\w+)', '{(.*?)}', 'parse_custom_attributes')
+        # parse_custom_metadata_element: re.search(r'\b' + custom_field + r'GAP{(.*?)}', custom_string)
+        fn = funcs['parse_custom_metadata_element']
+        field_arg = fn.args.args[1].arg if len(fn.args.args) == 2 else None
+        parts_ = only_pattern('parse_custom_metadata_element', 'search')
+        if len(parts_) != 3 or parts_[0] != '\\b' or not is_name(parts_[1], field_arg) or not isinstance(parts_[2], str):
+            raise ValueError('pattern of parse_custom_metadata_element not recognised')
+        gaps['element'] = gap_of(parts_[2], '', '{(.*?)}', 'parse_custom_metadata_element')
+        # parse_custom_metadata_element_list: re.finditer(r'\b(' + custom_field + r')GAP{(.*?)}', custom_string)
+        fn = funcs['parse_custom_metadata_element_list']
+        field_arg = fn.args.args[1].arg if len(fn.args.args) == 2 else None
+        parts_ = only_pattern('parse_custom_metadata_element_list', 'finditer')
+        if len(parts_) != 3 or parts_[0] != '\\b(' or not is_name(parts_[1], field_arg) or not isinstance(parts_[2], str):
+            raise ValueError('pattern of parse_custom_metadata_element_list not recognised')
+        gaps['element_list'] = gap_of(parts_[2], ')', '{(.*?)}', 'parse_custom_metadata_element_list')
+
+        # the style of the guard in front of each dedicated field: "'<tag>GAP{' somewhere in custom" (written as the
+        # substring test `'<tag> {' in custom` or as `re.search(r'<tag>GAP{', custom)`), or
+        # "re.search(r'\\b<tag>GAP{.*?}', custom)" (the same pattern the element parsers use)
         styles = {}
+        guard_gaps = {}
         for node in ast.walk(md):
             if not isinstance(node, ast.If):
                 continue
@@ -776,16 +848,23 @@ class C11(Check):
                     continue
                 tag = tags[k][1]
                 t = node.test
+                what = f'the guard of the dedicated field {k} in parse_custom_metadata'
                 if isinstance(t, ast.Compare) and len(t.ops) == 1 and isinstance(t.ops[0], ast.In) and \
                         isinstance(t.left, ast.Constant) and t.left.value == tag + ' {':
-                    styles[k] = False
+                    styles[k], guard_gaps[k] = False, False
                 elif isinstance(t, ast.Call) and isinstance(t.func, ast.Attribute) and t.func.attr == 'search' and \
-                        isinstance(t.func.value, ast.Name) and t.func.value.id == 're' and t.args and \
-                        isinstance(t.args[0], ast.Constant) and \
-                        t.args[0].value in ('\\b' + tag + ' {.*?}', '\\b' + tag + ' {(.*?)}'):
-                    styles[k] = True
+                        isinstance(t.func.value, ast.Name) and t.func.value.id == 're' and len(t.args) == 2 and \
+                        isinstance(t.args[0], ast.Constant) and isinstance(t.args[0].value, str) and \
+                        re.fullmatch(r'\w+', tag):
+                    pat = t.args[0].value
+                    if pat.startswith('\\b'):
+                        styles[k] = True
+                        guard_gaps[k] = gap_of(pat, '\\b' + tag, '{(.*?)}' if pat.endswith('{(.*?)}') else '{.*?}', what)
+                    else:
+                        styles[k] = False
+                        guard_gaps[k] = gap_of(pat, tag, '{', what)
                 else:
-                    raise ValueError(f'guard of the dedicated field {k} in parse_custom_metadata not recognised')
+                    raise ValueError(f'{what} not recognised')
         for k in want:
             if k not in styles:
                 raise ValueError(f'no guard found for the dedicated field {k} in parse_custom_metadata')
@@ -799,7 +878,8 @@ class C11(Check):
 GENERATED by harness/props/c11.py (Check.translate) from pagexml/parser.py — do not edit.
 The keys whose values `parse_custom_attribute_parts` converts with `int()`, the tag names
 `parse_custom_metadata` looks for, and the style of the guard in front of each of them:
-`false` = plain substring test `'<name> {{' in custom`, `true` = `re.search(r'\\b<name> {{.*?}}', custom)`.
+`false` = plain test `'<name> {{' in custom`, `true` = `re.search(r'\\b<name> {{.*?}}', custom)`; and what each
+pattern writes between the tag name and the opening brace (`…AnySpace`): `false` = one space, `true` = `\\s*`.
 -/
 namespace Pagexml.C11.Gen
 
@@ -816,6 +896,18 @@ def readingOrderGuardRegex : Bool := {lean_bool(styles['reading_order'])}
 def structureGuardRegex : Bool := {lean_bool(styles['structure'])}
 
 def textStyleGuardRegex : Bool := {lean_bool(styles['text_style'])}
+
+def attributesAnySpace : Bool := {lean_bool(gaps['attributes'])}
+
+def elementAnySpace : Bool := {lean_bool(gaps['element'])}
+
+def elementListAnySpace : Bool := {lean_bool(gaps['element_list'])}
+
+def readingOrderGuardAnySpace : Bool := {lean_bool(guard_gaps['reading_order'])}
+
+def structureGuardAnySpace : Bool := {lean_bool(guard_gaps['structure'])}
+
+def textStyleGuardAnySpace : Bool := {lean_bool(guard_gaps['text_style'])}
 
 end Pagexml.C11.Gen
 '''
